@@ -26,6 +26,9 @@ pub const SIGMA_M: &[&str] = &[
     "$", "#", ">", "-", "- ", "1.", "1. ", "@", ":", "=",
     // line structure
     "\n---", "\n---   ", "\n--", "\n",
+    // indentation kinds (the common indentation of the lines is computed and cut off): lines indented by an
+    // ASCII blank, a tab, a no-break space (2 bytes) and an ideographic space (3 bytes), and the bare characters
+    "\n--- a", "\n---\ta", "\n---\u{a0}a", "\n---\u{3000}a", "\u{a0}", "\u{3000}",
 ];
 
 pub const FLAVOURS: [&str; 6] = ["md", "myst", "myst:lua", "rst", "rst:lua", "rst:lua:role"];
